@@ -198,4 +198,43 @@ def checkMatch (p s : T) (m : AstMap) (root : Option Path) : Bool :=
     | some sr =>
       embAt m pr.2 pr.1 r sr && expsOk m pr.2 pr.1 && singleIdent m && m.conflicts.isEmpty
 
+/-! ### C10's second sentence: absent content -/
+
+/-- could the concrete pattern node `q` be paired with student node `t` under SOME bindings? -/
+def couldMatch (q t : T) : Bool :=
+  q.kind = t.kind &&
+  match identField q.kind with
+  | none => contentEq none q t
+  | some f =>
+    nameClass (q.strAttr f) = .var || nameClass (q.strAttr f) = .wild ||
+      contentEq none q t || (contentEq (some f) q t && q.strAttr f = t.strAttr f)
+
+mutual
+/-- all nodes of a tree -/
+def T.nodes (t : T) : List T :=
+  match t with
+  | .mk k f fl kids => .mk k f fl kids :: nodesL kids
+def nodesL (ts : List T) : List T :=
+  match ts with
+  | [] => []
+  | t :: rest => t.nodes ++ nodesL rest
+end
+
+mutual
+/-- the concrete nodes of a pattern that every match has to pair: those not below a wildcard /
+placeholder (and not the `ctx` of a Name) -/
+def required (p : T) : List T :=
+  match p with
+  | .mk k f fl kids =>
+    match role (.mk k f fl kids) with
+    | .wildcard => []
+    | .expPh _ => []
+    | .wrapper => requiredL kids
+    | .concrete => .mk k f fl kids :: (if k = "Name" then [] else requiredL kids)
+def requiredL (ps : List T) : List T :=
+  match ps with
+  | [] => []
+  | p :: rest => required p ++ requiredL rest
+end
+
 end Pedal.Cait
